@@ -32,10 +32,14 @@ Shape(p) ==      \* optional groups a standard type may define
     [] p = "trafo_std"   -> {"std_shift", "std_tap", "std_zero"}
     [] p = "trafo3w_std" -> {"std_shift3w", "std_tap3w"}
     [] OTHER -> {}
+\* "none_pre_pq": not an error - ANOTHER element already carries both a 'p' and a 'q' pwl cost (legal, two rows for one element)
 Errs(p) == {"none", "dup_index_net", "dup_index_batch"}
-           \cup (IF p \in {"bus"} THEN {} ELSE IF p \in {"poly_cost", "pwl_cost"} THEN {"dup_cost_net", "dup_cost_batch"} ELSE {"missing_bus"})
-Cfgs == UNION {[pair : {p}, opts : SUBSET Opt(p), shape : SUBSET Shape(p), err : Errs(p)] : p \in Pairs}
-Rejects(c) == c.err # "none"
+           \cup (IF p \in {"bus"} THEN {} ELSE IF p \in {"poly_cost", "pwl_cost"} THEN {"dup_cost_net", "dup_cost_batch", "none_pre_pq"} ELSE {"missing_bus"})
+\* part: 0 = every parameter of the chosen groups is passed; k > 0 = the k-th optional parameter (cyclically) is left out, so
+\* that partially specified groups (one of a pair of to-side values ...) are enumerated too
+Parts == 0..3
+Cfgs == UNION {[pair : {p}, opts : SUBSET Opt(p), shape : SUBSET Shape(p), err : Errs(p), part : IF Opt(p) = {} THEN {0} ELSE Parts] : p \in Pairs}
+Rejects(c) == c.err \notin {"none", "none_pre_pq"}
 VARIABLES cfg
 Init == cfg \in Cfgs
 Next == UNCHANGED cfg
